@@ -425,14 +425,12 @@ LogOK(b, obs, o) ==
 (***************************************************************************)
 (* Judge: every clause violated by observation obs of frame b              *)
 (***************************************************************************)
-Judge(b, obs) ==
+JudgeCore(b, obs) ==
     LET o == ExpectL2(b)
         r == obs.rep
         answered == obs.kind = "reply"
         ans == o.ans
     IN
-    IF obs.kind = "panic" THEN { << "C01", "abort" >> }
-    ELSE
     (* scope: who must not be answered (C02), what is never answered (C05/C06/C07/C12) *)
     (IF ans = "mustnot" /\ answered
      THEN { << (CASE o.name \in { "EthForeignMac", "EthTypeOther", "Ip4Denied", "Ip6Denied",
@@ -503,6 +501,15 @@ Judge(b, obs) ==
                grows == o.kind = "data" /\ ~Validated(t.flow) /\ answered
            IN obs.tcb = Cardinality(DOMAIN tcb) + (IF grows THEN 1 ELSE 0))
     \cup LogOK(b, obs, o)
+
+(* An abort is a violation of C01; and since nothing was sent, a frame that had to be      *)
+(* answered was not (the clauses of a silent observation, except the table size, which an   *)
+(* aborted process no longer reports).                                                       *)
+Judge(b, obs) ==
+    IF obs.kind = "panic"
+    THEN { << "C01", "abort" >> }
+         \cup { v \in JudgeCore(b, [ obs EXCEPT !.kind = "silence", !.rep = << >> ]) : v[1] # "C09" }
+    ELSE JudgeCore(b, obs)
 
 (***************************************************************************)
 (* C19: answers do not depend on ports or IP version.  Events whose        *)
